@@ -108,6 +108,7 @@ def second_presentation(c):
 
 def evaluate(case):
     from skcriteria.pipeline import mkpipe
+    I.set_salt(case.get("matrix"))
     try:
         dm = I.mk(case)
         dmk = M.make(case["method"])
